@@ -1,3 +1,4 @@
 SPECIFICATION Spec
 CONSTANTS
+  PairInit = FALSE
   MaxSteps = 8
